@@ -200,7 +200,7 @@ Theorem limiter_rejection_skips_inner pos inst mw (inner inner' : layer) c w :
   limiter_layer pos inst mw inner c w = limiter_layer pos inst mw inner' c w
   /\ pr_err (fst (limiter_layer pos inst mw inner c w)) = Some ERate.
 Proof.
-  unfold limiter_layer. destruct (nth inst (w_limiters w) _) as [[cfg base] s].
+  unfold limiter_layer, limiter_layer_gen. destruct (nth inst (w_limiters w) _) as [[cfg base] s].
   destruct (lim_acquire cfg s (w_now w - base) 1 mw) as [wt s']. cbn [fst]. intros ->. cbn. auto.
 Qed.
 
@@ -473,9 +473,26 @@ Theorem limiter_wait_interrupted pos inst mw (inner inner' : layer) c w :
   wt <> -1 -> fst (wait w1 wt (Some c)) = true ->
   limiter_layer pos inst mw inner c w = limiter_layer pos inst mw inner' c w.
 Proof.
-  unfold limiter_layer. destruct (nth inst (w_limiters w) _) as [[cfg base] s].
+  unfold limiter_layer, limiter_layer_gen. destruct (nth inst (w_limiters w) _) as [[cfg base] s].
   destruct (lim_acquire cfg s (w_now w - base) 1 mw) as [wt s']. intros Hne.
   destruct (wt =? -1) eqn:E; [lia|]. destruct (wait _ wt (Some c)) as [i w2]. cbn [fst]. intros ->. reflexivity.
+Qed.
+
+(* C16: the rate limiter layer fires its event exactly when it refuses: when the permit is granted (with or
+   without a wait) the layer itself adds nothing to the log -- whether the wait runs to its end or is interrupted *)
+Theorem limiter_event_only_on_refusal pos inst mw (inner : layer) c w :
+  let '(cfg, base, s) := nth inst (w_limiters w) (Smooth 1, 0, SSmooth 0) in
+  let '(wt, s') := lim_acquire cfg s (w_now w - base) 1 mw in
+  let w1 := set_insts w (w_breakers w) (upd inst (fun p => (fst p, s')) (w_limiters w)) (w_bulkheads w) (w_caches w) in
+  (wt = -1 -> limiter_layer pos inst mw inner c w = (failure_result ERate, stamp (emit w1 KRateExceeded pos (snapshot w1 c) 0) c))
+  /\ (wt <> -1 ->
+      snd (limiter_layer pos inst mw inner c w) =
+      if fst (wait w1 wt (Some c)) then snd (wait w1 wt (Some c)) else snd (inner c (snd (wait w1 wt (Some c))))).
+Proof.
+  unfold limiter_layer, limiter_layer_gen. destruct (nth inst (w_limiters w) _) as [[cfg base] s].
+  destruct (lim_acquire cfg s (w_now w - base) 1 mw) as [wt s']. split; intros H.
+  - subst wt. reflexivity.
+  - destruct (wt =? -1) eqn:E; [lia|]. destruct (wait _ wt (Some c)) as [i w2]. cbn [fst snd]. destruct i; reflexivity.
 Qed.
 
 (* ------------------------------------------------------------------ *)
